@@ -51,6 +51,36 @@ func RSAOddKeys() []*rsa.PrivateKey {
 	return out
 }
 
+//go:embed testdata/rsa_small_e.pem
+var rsaSmallEPEM []byte
+
+var (
+	smallEOnce sync.Once
+	smallE     []*rsa.PrivateKey
+)
+
+// RSASmallExponentKeys returns 2048-bit keys with public exponents 3, 17 and 257 (legal keys that key generation
+// in Go never produces; encoders with a fast path for "the usual" exponent meet them here).
+func RSASmallExponentKeys() []*rsa.PrivateKey {
+	smallEOnce.Do(func() {
+		rest := rsaSmallEPEM
+		for {
+			var blk *pem.Block
+			blk, rest = pem.Decode(rest)
+			if blk == nil {
+				break
+			}
+			k, err := x509.ParsePKCS1PrivateKey(blk.Bytes)
+			if err != nil {
+				panic(err)
+			}
+			k.Precompute()
+			smallE = append(smallE, k)
+		}
+	})
+	return smallE
+}
+
 var (
 	poolOnce sync.Once
 	pool     []*rsa.PrivateKey
